@@ -182,6 +182,58 @@ func (m c19Msg) buf() []byte {
 	return []byte(sb.String())
 }
 
+// c19Atoms splits a criteria into its atomic constraints (one item each), in the order of the
+// text rendering: the conjunction of the atoms' results must equal the result for the whole.
+func c19Atoms(c imap.SearchCriteria) []imap.SearchCriteria {
+	var out []imap.SearchCriteria
+	for _, s := range c.SeqNum {
+		out = append(out, imap.SearchCriteria{SeqNum: []imap.SeqSet{s}})
+	}
+	for _, s := range c.UID {
+		out = append(out, imap.SearchCriteria{UID: []imap.UIDSet{s}})
+	}
+	if !c.Since.IsZero() {
+		out = append(out, imap.SearchCriteria{Since: c.Since})
+	}
+	if !c.Before.IsZero() {
+		out = append(out, imap.SearchCriteria{Before: c.Before})
+	}
+	if !c.SentSince.IsZero() {
+		out = append(out, imap.SearchCriteria{SentSince: c.SentSince})
+	}
+	if !c.SentBefore.IsZero() {
+		out = append(out, imap.SearchCriteria{SentBefore: c.SentBefore})
+	}
+	for _, h := range c.Header {
+		out = append(out, imap.SearchCriteria{Header: []imap.SearchCriteriaHeaderField{h}})
+	}
+	for _, x := range c.Body {
+		out = append(out, imap.SearchCriteria{Body: []string{x}})
+	}
+	for _, x := range c.Text {
+		out = append(out, imap.SearchCriteria{Text: []string{x}})
+	}
+	for _, x := range c.Flag {
+		out = append(out, imap.SearchCriteria{Flag: []imap.Flag{x}})
+	}
+	for _, x := range c.NotFlag {
+		out = append(out, imap.SearchCriteria{NotFlag: []imap.Flag{x}})
+	}
+	if c.Larger != 0 {
+		out = append(out, imap.SearchCriteria{Larger: c.Larger})
+	}
+	if c.Smaller != 0 {
+		out = append(out, imap.SearchCriteria{Smaller: c.Smaller})
+	}
+	for _, n := range c.Not {
+		out = append(out, imap.SearchCriteria{Not: []imap.SearchCriteria{c19Copy(n)}})
+	}
+	for _, o := range c.Or {
+		out = append(out, imap.SearchCriteria{Or: [][2]imap.SearchCriteria{{c19Copy(o[0]), c19Copy(o[1])}}})
+	}
+	return out
+}
+
 func c19MsgCase(e *emitter, c imap.SearchCriteria, m c19Msg) {
 	buf := m.buf()
 	var flags []imap.Flag
@@ -192,6 +244,11 @@ func c19MsgCase(e *emitter, c imap.SearchCriteria, m c19Msg) {
 	}
 	cc := c19Copy(c)
 	got := imapmemserver.VerifMessageSearch(imap.UID(m.uid), buf, m.t, flags, m.seq, &cc)
+	var parts strings.Builder
+	for _, a := range c19Atoms(c) {
+		a := a
+		parts.WriteString(b01(imapmemserver.VerifMessageSearch(imap.UID(m.uid), buf, m.t, flags, m.seq, &a)))
+	}
 	var hs []string
 	for _, h := range m.hdrs {
 		hs = append(hs, hx([]byte(strings.ToLower(h[0])))+":"+hx([]byte(strings.ToLower(h[1]))))
@@ -200,7 +257,7 @@ func c19MsgCase(e *emitter, c imap.SearchCriteria, m c19Msg) {
 		hs = append(hs, hx([]byte("date"))+":"+hx([]byte(strings.ToLower(m.date))))
 	}
 	e.emit("msg", fmtCriteria(&c), fmt.Sprint(m.seq), fmt.Sprint(m.uid), fmt.Sprint(c19Trunc(m.t)), fmt.Sprint(c19Trunc(m.sent)), b01(m.sentErr),
-		strings.Join(fl, ","), fmt.Sprint(len(buf)), hx([]byte(strings.ToLower(string(buf)))), hx([]byte(strings.ToLower(m.body))), strings.Join(hs, ","), b01(got))
+		strings.Join(fl, ","), fmt.Sprint(len(buf)), hx([]byte(strings.ToLower(string(buf)))), hx([]byte(strings.ToLower(m.body))), strings.Join(hs, ","), "p"+parts.String(), b01(got))
 }
 
 // --- search keys on the wire ---
